@@ -236,6 +236,8 @@ func (rs *bodyStream) Read(p []byte) (int, error) {
 	return n, err
 }
 
+var errPrereadPastBody = errs.NewPublic("bytes behind the body were consumed while pre-reading it")
+
 func (rs *bodyStream) skipRest() error {
 	// The body length doesn't exceed the maxContentLengthInStream or
 	// the bodyStream has been skip rest
@@ -299,6 +301,12 @@ func (rs *bodyStream) skipRest() error {
 	}
 	// max value of pSize is 8193, it's safe.
 	pSize := int(rs.prefetchedBytes.Size())
+	if rs.contentLength < pSize {
+		// With a length above the pre-read limit the pre-read takes every byte
+		// that is buffered, also those behind the body: the message that
+		// follows is not intact any more and the connection cannot go on.
+		return errPrereadPastBody
+	}
 	if rs.contentLength <= pSize || rs.offset == rs.contentLength {
 		return nil
 	}
